@@ -297,7 +297,7 @@ def illformed_case(item):
         for _ in range(item["date"]):
             t.apply(["next"])
         path = ["a"] if item["shape"] == "T1" else ["s1", "a"]
-        r = _expect_raise(t, lambda: (t.apply(["sectransact", path, 2.0, 5.0]), t.root.value), cls)
+        r = _expect_raise(t, lambda: (t.apply(["sectransact", path, 2.0, float(item.get("price", 5.0))]), t.root.value), cls)
     else:
         raise KeyError(cls)
     if r[0] != "raised":
@@ -322,6 +322,7 @@ def situations():
                         out.append({"cls": "nan_price_open_position", "shape": shape, "date": k, "op": op, "integer": integer, "fee": fee})
             for k in (0, 1, 2):
                 out.append({"cls": "custom_price_without_bidoffer", "shape": shape, "date": k, "integer": integer})
+                out.append({"cls": "custom_price_without_bidoffer", "shape": shape, "date": k, "integer": integer, "price": 0.0})
                 out.append({"cls": "zero_base", "fi": False, "shape": shape, "date": k, "integer": integer})
         for k in (1, 2, 3):
             for sec in ("c", "ch"):
